@@ -237,6 +237,9 @@ func drive(args []string) {
 				select {
 				case err := <-done:
 					if err != nil {
+						if os.Getenv("VERIF_KEEP_RAW") != "" { // debugging aid
+							os.WriteFile(filepath.Join(*replays, fmt.Sprintf(".stderr-%s-%d.txt", *prop, ji)), stderr.Bytes(), 0o644)
+						}
 						errs[ji] = fmt.Errorf("worker %d (%s): %v\n%s", ji, j.build, err, tail(stderr.String(), 2000))
 						return
 					}
@@ -330,7 +333,9 @@ func drive(args []string) {
 		build := jobs[ji].build
 		final := filepath.Join(*replays, fmt.Sprintf("%s-%d-%d.json", *prop, *seed, len(reps)))
 		v, err := shrinkAndConfirm(b, build, o.ReplayFile, final, 25*time.Second)
-		os.Remove(o.ReplayFile)
+		if os.Getenv("VERIF_KEEP_RAW") == "" { // debugging aid
+			os.Remove(o.ReplayFile)
+		}
 		if err != nil {
 			// the run alone does not fail in a fresh process: state the
 			// pristine-state comparison cannot see may have been carried over from
